@@ -162,7 +162,7 @@ fn c01_wiring_n1_p2() {
     kani::cover!(o == 4, "VERIF:reach:proof with an added signer refused");
 }
 
-// HARNESS props=C01,C08 tier=thorough profile=gw_wire3 shape="installed set N=3, proof with 3 entries"
+// HARNESS props=C01,C08 tier=quick profile=gw_wire3 shape="installed set N=3, proof with 3 entries"
 #[kani::proof]
 #[kani::unwind(220)]
 #[kani::stub(validate_signatures, stub_validate_signatures)]
